@@ -682,6 +682,10 @@ class TidemanAlternative:
                 round_votes = RANKED_SUBSETTER.convert(round_votes, s_set_list)
                 rem = eliminate_one(round_votes)
                 logger.info('eliminated to %s', rem)
+                if votelib.evaluate.core.Tie.any(rem):
+                    raise NotImplementedError(
+                        'tie in Tideman alternative elimination'
+                    )
                 if len(rem) == 1:
                     return rem.pop()
                 else:
@@ -719,6 +723,8 @@ class Benham:
             remains = eliminate_one(current_votes)
             if len(remains) == 1:
                 return remains
+            elif votelib.evaluate.core.Tie.any(remains):
+                raise NotImplementedError('tie in Benham elimination')
             else:
                 current_votes = RANKED_SUBSETTER.convert(votes, remains)
                 condowin = self.get_condorcet_winner(current_votes)
